@@ -24,9 +24,9 @@ KindMembersT == <<{Mem(k, l) : k \in Kinds1, l \in Vis4 \cup {"same"}}, {}>>
 \* --- nested: a class with a nested class; the outer class may mention the nested one
 NestHeads == {<<"class", FALSE, FALSE>>}
 NestHeadsT == {<<"class", FALSE, FALSE>>, <<"struct", TRUE, FALSE>>}
-NestMembers == <<{Mem(k, l) : k \in {"meth", "usep"}, l \in {"published", "private"}},
+NestMembers == <<{Mem(k, l) : k \in {"meth", "usep", "dataa"}, l \in {"published", "private"}},
                  {Mem("meth", l) : l \in {"same", "published", "private"}}>>
-NestMembersT == <<{Mem(k, l) : k \in {"meth", "usep", "user"}, l \in {"published", "public", "protected", "private"}},
+NestMembersT == <<{Mem(k, l) : k \in {"meth", "usep", "user", "dataa"}, l \in {"published", "public", "protected", "private"}},
                   {Mem("meth", l) : l \in {"same", "published", "public", "private"}}>>
 
 \* --- files: two files, two classes related by base / signature / data member, one command
@@ -65,6 +65,11 @@ AliasSrcs == {"cwd", "I"}
 \* --- aliasnest: a class with a nested class, a nested alias of it, and a member that uses the alias
 ANMembers == <<{UseA("usea", "published", "ptr")}, {Mem("meth", "published")}>>
 ANForms == {<<"typedef", "plain">>, <<"using", "plain">>}
+
+\* --- props: accessor functions and MAKE_PROPERTY / MAKE_SEQ declarations naming them, in every section
+PropMembers == <<{Mem(k, l) : k \in {"getter", "seqget", "mprop", "mseq"}, l \in Vis4}, {}>>
+PropHeads == {<<"class", FALSE, FALSE>>}
+PropShape(x) == \A c \in 1..NC : \A i \in 1..NM(c) : (Mbr(c, i).k \in {"getter", "seqget"} => i = 1)
 
 \* --- commands on members
 CmdHeads == {<<"class", FALSE, FALSE>>}
@@ -140,6 +145,12 @@ WFRefs ==
   \* a namespace-scope alias names a namespace-scope class; nested aliases carry an explicit access label
   /\ \A a \in 1..NA : (Ali(a).scope = 0 => (Cls(TargetClass(a)).outer = 0 /\ ~Cls(TargetClass(a)).ns))
   /\ \A a \in 1..NA : (Ali(a).scope # 0 => Mbr(Ali(a).scope, Ali(a).at).lab \in AliasLabels)
+  \* an array member needs a complete element type: the nested class of the same class, declared before it
+  /\ \A c \in 1..NC : \A i \in 1..NM(c) : (Mbr(c, i).k = "dataa" => Cls(Mbr(c, i).rc).outer = c)
+  \* a visible property names a visible accessor (whether a published property publishes a merely public accessor
+  \* is not claimed)
+  /\ \A c \in 1..NC : \A i \in 1..NM(c) :
+       ((done /\ Mbr(c, i).k \in {"mprop", "mseq"} /\ Rank(VisAt(c, i)) <= MinRank) => Rank(VisAt(c, Mbr(c, i).gi)) <= MinRank)
   \* one destructor, one get_class_type, one constructor signature per class (valid C++)
   /\ \A c \in 1..NC : \A k \in {"dtor", "gct", "ctor"} : Cardinality({i \in 1..NM(c) : Mbr(c, i).k = k}) <= 1
 
